@@ -70,6 +70,26 @@ theorem extendedGcdAux_zero (fuel : Nat) (b : Int) : extendedGcdAux fuel 0 b = (
 
 /-! ### `extended_gcd`: Bezout identity and coefficient bounds -/
 
+theorem extendedGcdAux_fst (fuel a b : Nat) (h : a < fuel) :
+    (extendedGcdAux fuel (a : Int) (b : Int)).1 = ((Nat.gcd a b : Nat) : Int) := by
+  induction fuel generalizing a b with
+  | zero => omega
+  | succ f ih =>
+    unfold extendedGcdAux
+    by_cases ha : a = 0
+    · subst ha; simp
+    · have ha' : ¬ ((a : Int) = 0) := by omega
+      rw [if_neg ha']
+      simp only
+      rw [trem_natCast]
+      have hlt : b % a < f := by
+        have := Nat.mod_lt b (show 0 < a by omega); omega
+      rw [ih (b % a) a hlt, Nat.gcd_rec a b]
+
+theorem extendedGcd_fst (a b : Nat) : (extendedGcd (a : Int) (b : Int)).1 = ((Nat.gcd a b : Nat) : Int) := by
+  unfold extendedGcd
+  exact extendedGcdAux_fst _ a b (by omega)
+
 /-- the invariant of the Euclid recursion as the code implements it -/
 def BezoutOK (a b g x y : Int) : Prop :=
   g = x * a + y * b ∧
@@ -459,5 +479,163 @@ theorem residueClass_total (I J : Interval) (hI : I.WF) (hJ : J.WF) (hsI : I.str
   · rw [Int.toNat_of_nonneg hrc0]
     have : J.start - rc = (J.start - J.start % (J.stride : Int)) + (J.start % (J.stride : Int) - rc) := by omega
     rw [this]; exact Int.dvd_add hdJ c5
+
+/-! ### beyond `u64::MAX`: the computation always gives up -/
+
+theorem i128_of_big {z : Int} (h1 : 2 ^ 127 ≤ z) (h2 : z < 2 ^ 128) : i128 z = z - 2 ^ 128 := by
+  unfold i128
+  rw [Int.bmod_def]
+  have e1 : ((2 ^ 128 : Nat) : Int) = 2 ^ 128 := by decide
+  have e2 : (((2 ^ 128 : Nat) : Int) + 1) / 2 = 2 ^ 127 := by decide
+  have e3 : z % ((2 ^ 128 : Nat) : Int) = z := Int.emod_eq_of_lt (by omega) (by omega)
+  rw [e3, e2, if_neg (by omega), e1]
+
+/-- a divisor `> 1` of a power of two is even -/
+theorem even_of_dvd_two_pow (n d : Nat) (h : d ∣ 2 ^ n) (h1 : 1 < d) : 2 ∣ d := by
+  induction n with
+  | zero =>
+    have := Nat.le_of_dvd (by decide) h
+    omega
+  | succ n ih =>
+    by_cases h2 : 2 ∣ d
+    · exact h2
+    · have hco : Nat.Coprime d 2 := by
+        have hg : Nat.gcd d 2 ∣ 2 := Nat.gcd_dvd_right _ _
+        have hle := Nat.le_of_dvd (by decide) hg
+        have hpos : 0 < Nat.gcd d 2 := Nat.gcd_pos_of_pos_right _ (by decide)
+        have : Nat.gcd d 2 ≠ 2 := fun e => h2 (e ▸ Nat.gcd_dvd_left d 2)
+        show Nat.gcd d 2 = 1
+        omega
+      rw [Nat.pow_succ] at h
+      exact ih (hco.dvd_of_dvd_mul_right h)
+
+/-- two divisors of a power of two: one divides the other, so the lcm is one of them -/
+theorem lcm_of_dvd_two_pow (n a b : Nat) (ha : 0 < a) (hb : 0 < b) (h1 : a ∣ 2 ^ n) (h2 : b ∣ 2 ^ n) :
+    Nat.lcm a b = a ∨ Nat.lcm a b = b := by
+  have hg : 0 < Nat.gcd a b := Nat.gcd_pos_of_pos_left _ ha
+  have hco := Nat.coprime_div_gcd_div_gcd hg
+  have hpa : a / Nat.gcd a b ∣ a := Nat.div_dvd_of_dvd (Nat.gcd_dvd_left _ _)
+  have hqb : b / Nat.gcd a b ∣ b := Nat.div_dvd_of_dvd (Nat.gcd_dvd_right _ _)
+  have hp0 : 0 < a / Nat.gcd a b := Nat.div_pos (Nat.le_of_dvd ha (Nat.gcd_dvd_left _ _)) hg
+  have hq0 : 0 < b / Nat.gcd a b := Nat.div_pos (Nat.le_of_dvd hb (Nat.gcd_dvd_right _ _)) hg
+  have ea : Nat.gcd a b * (a / Nat.gcd a b) = a := Nat.mul_div_cancel' (Nat.gcd_dvd_left _ _)
+  have eb : Nat.gcd a b * (b / Nat.gcd a b) = b := Nat.mul_div_cancel' (Nat.gcd_dvd_right _ _)
+  by_cases hp : a / Nat.gcd a b = 1
+  · right
+    rw [hp, Nat.mul_one] at ea
+    exact Nat.lcm_eq_right (ea ▸ Nat.gcd_dvd_right a b)
+  · by_cases hq : b / Nat.gcd a b = 1
+    · left
+      rw [hq, Nat.mul_one] at eb
+      exact Nat.lcm_eq_left (eb ▸ Nat.gcd_dvd_left a b)
+    · exfalso
+      have e1 := even_of_dvd_two_pow n _ (Nat.dvd_trans hpa h1) (by omega)
+      have e2 := even_of_dvd_two_pow n _ (Nat.dvd_trans hqb h2) (by omega)
+      exact Nat.not_coprime_of_dvd_of_dvd (by decide : 1 < 2) e1 e2 hco
+
+theorem crtTail_err (sl sr g li ri bl br : Int)
+    (h : ¬ (i128 (tquot sl g * sr) ≤ 2 ^ 64 - 1 ∧ trem (i128 (tquot sl g * sr)) sl = 0 ∧
+      trem (i128 (tquot sl g * sr)) sr = 0)) :
+    crtTail sl sr g li ri bl br = .err := by
+  unfold crtTail
+  simp only
+  rw [if_neg]
+  rintro ⟨a, b, c, _⟩
+  exact h ⟨a, b, c⟩
+
+/-- the gcd test of `compute_intersection_residue_class` -/
+theorem residueClass_gcd_test (I J : Interval) (hsI : I.stride ≠ 0) (hsJ : J.stride ≠ 0) :
+    computeIntersectionResidueClass I J =
+      if I.start % ((Nat.gcd I.stride J.stride : Nat) : Int) ≠ J.start % ((Nat.gcd I.stride J.stride : Nat) : Int)
+      then .empty
+      else crtTail (I.stride : Int) (J.stride : Int) ((Nat.gcd I.stride J.stride : Nat) : Int)
+        (extendedGcd (I.stride : Int) (J.stride : Int)).2.1 (extendedGcd (I.stride : Int) (J.stride : Int)).2.2
+        (I.start % (I.stride : Int)) (J.start % (J.stride : Int)) := by
+  have hgl : ((Nat.gcd I.stride J.stride : Nat) : Int) ∣ (I.stride : Int) :=
+    Int.natCast_dvd_natCast.mpr (Nat.gcd_dvd_left _ _)
+  have hgr : ((Nat.gcd I.stride J.stride : Nat) : Int) ∣ (J.stride : Int) :=
+    Int.natCast_dvd_natCast.mpr (Nat.gcd_dvd_right _ _)
+  have hbl0 : 0 ≤ I.start % (I.stride : Int) := Int.emod_nonneg _ (by omega)
+  have hbr0 : 0 ≤ J.start % (J.stride : Int) := Int.emod_nonneg _ (by omega)
+  rw [residueClass_unfold I J hsI hsJ, extendedGcd_fst, trem_nonneg hbl0, trem_nonneg hbr0,
+    Int.emod_emod_of_dvd _ hgl, Int.emod_emod_of_dvd _ hgr]
+
+/-- **C04-crt-gives-up.** If the start values agree modulo the gcd of the (positive) strides and the lcm
+of the strides exceeds `u64::MAX`, `compute_intersection_residue_class` answers
+`Err("Integer overflow …")` — also when the `i128` product `(stride_left / gcd) * stride_right` wraps
+(then it would have to be divisible by both strides, which forces both to be powers of two). -/
+theorem residueClass_err_of_big (I J : Interval) (hI : I.WF) (hJ : J.WF) (hsI : I.stride ≠ 0) (hsJ : J.stride ≠ 0)
+    (hL : 2 ^ 64 ≤ Nat.lcm I.stride J.stride)
+    (hcong : I.start % ((Nat.gcd I.stride J.stride : Nat) : Int) = J.start % ((Nat.gcd I.stride J.stride : Nat) : Int)) :
+    computeIntersectionResidueClass I J = .err := by
+  have hIu := hI.2.2.2.2.2.2
+  have hJu := hJ.2.2.2.2.2.2
+  have hgpos : 0 < Nat.gcd I.stride J.stride := Nat.gcd_pos_of_pos_left _ (by omega)
+  rw [residueClass_gcd_test I J hsI hsJ, if_neg (fun h => h hcong)]
+  apply crtTail_err
+  -- the computed product
+  have hq : tquot (I.stride : Int) ((Nat.gcd I.stride J.stride : Nat) : Int)
+      = ((I.stride / Nat.gcd I.stride J.stride : Nat) : Int) := by
+    rw [tquot_nonneg (by omega), Int.natCast_ediv]
+  have hlcmN : I.stride / Nat.gcd I.stride J.stride * J.stride = Nat.lcm I.stride J.stride := by
+    unfold Nat.lcm
+    rw [Nat.mul_div_right_comm (Nat.gcd_dvd_left _ _)]
+  rw [hq, ← Int.natCast_mul, hlcmN]
+  have hple : I.stride / Nat.gcd I.stride J.stride ≤ 2 ^ 64 - 1 := by
+    have := Nat.div_le_self I.stride (Nat.gcd I.stride J.stride); omega
+  have hlt128 : Nat.lcm I.stride J.stride < 2 ^ 128 := by
+    rw [← hlcmN]
+    have := Nat.mul_le_mul hple (show J.stride ≤ 2 ^ 64 - 1 by omega)
+    have e : (2 ^ 64 - 1) * (2 ^ 64 - 1) < 2 ^ 128 := by decide
+    omega
+  have hLsl : ((I.stride : Nat) : Int) ∣ ((Nat.lcm I.stride J.stride : Nat) : Int) :=
+    Int.natCast_dvd_natCast.mpr (Nat.dvd_lcm_left _ _)
+  have hLsr : ((J.stride : Nat) : Int) ∣ ((Nat.lcm I.stride J.stride : Nat) : Int) :=
+    Int.natCast_dvd_natCast.mpr (Nat.dvd_lcm_right _ _)
+  have e128 : ((2 ^ 128 : Nat) : Int) = 2 ^ 128 := by decide
+  have hL' : (2 : Int) ^ 64 ≤ ((Nat.lcm I.stride J.stride : Nat) : Int) := by exact_mod_cast hL
+  have hlt' : ((Nat.lcm I.stride J.stride : Nat) : Int) < 2 ^ 128 := by
+    have := Int.ofNat_lt.mpr hlt128; omega
+  by_cases hsmall : ((Nat.lcm I.stride J.stride : Nat) : Int) < 2 ^ 127
+  · rw [i128_of_small (by omega) hsmall]
+    rintro ⟨h, _, _⟩
+    omega
+  · rw [i128_of_big (by omega) hlt']
+    rintro ⟨_, c2, c3⟩
+    have d2 := Int.dvd_of_tmod_eq_zero c2
+    have d3 := Int.dvd_of_tmod_eq_zero c3
+    have t2 : ((I.stride : Nat) : Int) ∣ ((2 ^ 128 : Nat) : Int) := by
+      rw [e128]
+      have := Int.dvd_sub hLsl d2
+      rwa [show ((Nat.lcm I.stride J.stride : Nat) : Int) - (((Nat.lcm I.stride J.stride : Nat) : Int) - 2 ^ 128)
+        = 2 ^ 128 by omega] at this
+    have t3 : ((J.stride : Nat) : Int) ∣ ((2 ^ 128 : Nat) : Int) := by
+      rw [e128]
+      have := Int.dvd_sub hLsr d3
+      rwa [show ((Nat.lcm I.stride J.stride : Nat) : Int) - (((Nat.lcm I.stride J.stride : Nat) : Int) - 2 ^ 128)
+        = 2 ^ 128 by omega] at this
+    rcases lcm_of_dvd_two_pow 128 I.stride J.stride (by omega) (by omega)
+      (Int.natCast_dvd_natCast.mp t2) (Int.natCast_dvd_natCast.mp t3) with h | h <;> omega
+
+/-- **C04-crt-err-iff.** For two positive strides, `compute_intersection_residue_class` answers
+`Err("Integer overflow …")` exactly when the residue classes meet (start values congruent modulo the gcd)
+but the stride of the intersection, the lcm, exceeds `u64::MAX`. -/
+theorem residueClass_err_iff (I J : Interval) (hI : I.WF) (hJ : J.WF) (hsI : I.stride ≠ 0) (hsJ : J.stride ≠ 0) :
+    computeIntersectionResidueClass I J = .err ↔
+      (I.start % ((Nat.gcd I.stride J.stride : Nat) : Int) = J.start % ((Nat.gcd I.stride J.stride : Nat) : Int) ∧
+        2 ^ 64 ≤ Nat.lcm I.stride J.stride) := by
+  constructor
+  · intro herr
+    constructor
+    · apply Decidable.byContradiction
+      intro hn
+      rw [residueClass_gcd_test I J hsI hsJ, if_pos hn] at herr
+      cases herr
+    · apply Decidable.byContradiction
+      intro hn
+      rcases residueClass_total I J hI hJ hsI hsJ (by omega) with ⟨h, _⟩ | ⟨rc, h, _⟩ <;>
+        (rw [h] at herr; cases herr)
+  · rintro ⟨hc, hL⟩
+    exact residueClass_err_of_big I J hI hJ hsI hsJ hL hc
 
 end CweModel.C04
